@@ -345,7 +345,9 @@ func (f *fq) dispose() {
 // measureInCap finds the capacity of the `in` channel of a queue from outside: one worker, Depth(0), the worker busy
 // with a blocked task; then `tasks` takes one task, the dispatcher holds one while it waits for a completion, `in` takes
 // its capacity and the next Submit blocks: capacity = (Submit calls that return) - 3.
-func measureInCap() int {
+func measureInCap() int { return measureInCapQuiet(60 * time.Millisecond) }
+
+func measureInCapQuiet(quiet time.Duration) int {
 	gate := make(chan struct{})
 	q := taskqueue.New(taskqueue.Workers(1), taskqueue.Depth(0))
 	var returned atomic.Int32
@@ -359,14 +361,14 @@ func measureInCap() int {
 		<-started // the worker has taken the first task: the next one goes into the (empty) tasks channel …
 		q.Submit(func() {})
 		returned.Add(1)
-		time.Sleep(5 * time.Millisecond) // … before the third one arrives, which the dispatcher then holds
-		for !stop.Load() {
+		time.Sleep(5 * time.Millisecond)              // … before the third one arrives, which the dispatcher then holds
+		for !stop.Load() && returned.Load() < 20000 { // bounded: a queue that never blocks is not measured for ever
 			q.Submit(func() {})
 			returned.Add(1)
 		}
 	}()
 	last, since := returned.Load(), time.Now()
-	for time.Since(since) < 60*time.Millisecond {
+	for time.Since(since) < quiet {
 		time.Sleep(time.Millisecond)
 		if cur := returned.Load(); cur != last {
 			last, since = cur, time.Now()
@@ -423,6 +425,24 @@ func (a *forcedArea) Run(line string) string {
 			return "cap=overlay"
 		}
 		return "cap=" + strconv.Itoa(measureInCap())
+	}
+	if w[0] == "realcap" {
+		// the capacity of `in` of a queue made by New without the injected option, measured from outside; the measurement
+		// waits for a quiet period, so a starved submitter could under-count: the most frequent of up to five
+		// measurements is reported (the check compares it with what c15facts read from the source)
+		count := map[int]int{}
+		best := -1
+		for i := 0; i < 5; i++ {
+			c := measureInCapQuiet(250 * time.Millisecond) // a long quiet period: a starved submitter must not look blocked
+			count[c]++
+			if best < 0 || count[c] > count[best] {
+				best = c
+			}
+			if count[best] >= 2 {
+				break
+			}
+		}
+		return "cap=" + strconv.Itoa(best)
 	}
 	if w[0] == "new" {
 		if len(w) != 4 && len(w) != 5 {
